@@ -29,7 +29,7 @@ func (c22) Describe() engine.Info {
 	return engine.Info{
 		Rule:           "scenario = 50..400 events over {key down/up for each of the 8 keys (delivered through the simulated display), JOYP write of any value, JOYP read} 0..200 cycles apart. Oracle: reference joypad (bits 6-7 read 1, bits 4-5 as last written, low nibble = AND of the selected groups' lines, all 1s when none is selected, pressing a direction releases its opposite). Signature = reached controller state (select bits, direction lines, button lines): the reachable space has 4 x 9 x 16 = 576 states.",
 		Assumptions:    []string{"breadth-first enumeration named in the quantifier is model checking; random walks are used instead and the number of distinct states reached is reported", "the joypad interrupt is never raised by this emulator and is not part of the statement"},
-		RequiredProbes: []string{"both_groups_selected_read", "opposite_direction_pressed", "no_group_selected_read"},
+		RequiredProbes: []string{"both_groups_selected_read", "opposite_direction_pressed", "no_group_selected_read", "dma_started_during_the_walk"},
 		RealComponents: realComponents, StubComponents: stubComponents,
 	}
 }
@@ -53,6 +53,13 @@ func (c22) Generate(r *engine.Rand, index int, tier string) *engine.Scenario {
 			sc.Events = append(sc.Events, engine.Event{At: at, K: "bus_w", A: 0xff00, V: v})
 		default:
 			sc.Events = append(sc.Events, engine.Event{At: at, K: "bus_r", A: 0xff00})
+		}
+		if index%3 == 1 && r.Chance(1, 12) {
+			// the rest of the machine is busy: an OAM DMA transfer in flight, the LCD or the sound unit
+			// switched, the timer reprogrammed - JOYP reflects the keys and the select bits regardless
+			at++
+			x := engine.Pick(r, [][2]int{{0xff46, 0xc0}, {0xff46, 0x40}, {0xff46, 0xfe}, {0xff40, 0x91}, {0xff40, 0x00}, {0xff26, 0x80}, {0xff07, 0x05}, {0xff46, 0x80}})
+			sc.Events = append(sc.Events, engine.Event{At: at, K: "bus_w", A: uint16(x[0]), V: uint8(x[1]), S: "other"})
 		}
 	}
 	sc.Cycles = at + 4
@@ -142,6 +149,14 @@ func (c22) Execute(sc *engine.Scenario) *engine.Result {
 				res.Fault("key_event")
 				ok = check(fmt.Sprintf("key %d down=%v", ev.A, ev.V != 0))
 			case "bus_w":
+				if ev.A != 0xff00 {
+					m.Write(ev.A, ev.V)
+					res.Fault("other_unit_write")
+					if ev.A == 0xff46 {
+						res.Probe("dma_started_during_the_walk")
+					}
+					continue
+				}
 				m.Write(0xff00, ev.V)
 				sel = ev.V
 				written = true
